@@ -27,16 +27,21 @@ Fixpoint map_res {A B} (f : A -> res B) (l : list A) : res (list B) :=
   | x :: l' => y <- f x ;; ys <- map_res f l' ;; Ok (y :: ys)
   end.
 
+(* Handles are list indices (nat).  A hostile/sentinel handle such as 0xFFFFFFFF must not be
+   converted to a unary nat: every handle is capped at BAD_HANDLE, which is out of range of any arena. *)
+Definition BAD_HANDLE : Z := 1048575.
+Definition hnat (z : Z) : nat := Z.to_nat (Z.min z BAD_HANDLE).
+
 Definition get (k : string) (j : json) : res json := of_opt ("missing field " ++ k) (field k j).
 Definition getnum (k : string) (j : json) : res Z := of_opt ("field not a number: " ++ k) (field_num k j).
 Definition getnat (k : string) (j : json) : res nat :=
-  z <- getnum k j ;; if z <? 0 then Err ("negative handle: " ++ k) else Ok (Z.to_nat z).
+  z <- getnum k j ;; if z <? 0 then Err ("negative handle: " ++ k) else Ok (hnat z).
 Definition getstr (k : string) (j : json) : res string := of_opt ("field not a string: " ++ k) (field_str k j).
 Definition getbool (k : string) (j : json) : res bool := of_opt ("field not a bool: " ++ k) (field_bool k j).
 Definition getarr (k : string) (j : json) : res (list json) := of_opt ("field not an array: " ++ k) (field_arr k j).
 
 Definition jnat (j : json) : res nat :=
-  match j with JNum z => if z <? 0 then Err "negative handle" else Ok (Z.to_nat z) | _ => Err "expected number" end.
+  match j with JNum z => if z <? 0 then Err "negative handle" else Ok (hnat z) | _ => Err "expected number" end.
 Definition jz (j : json) : res Z := match j with JNum z => Ok z | _ => Err "expected number" end.
 
 (* optional field: null -> None *)
@@ -150,7 +155,7 @@ Definition dec_type (j : json) : res ty :=
 
 Definition dec_resolution (j : json) : res type_resolution :=
   match field "Handle" j with
-  | Some (JNum z) => if z <? 0 then Err "negative type handle" else Ok (RHandle (Z.to_nat z))
+  | Some (JNum z) => if z <? 0 then Err "negative type handle" else Ok (RHandle (hnat z))
   | _ => v <- get "Value" j ;;
          match v with JNull => Ok RNone | _ => i <- dec_type_inner v ;; Ok (RValue i) end
   end.
@@ -213,7 +218,7 @@ Definition other_expr_fields (t : string) : list string :=
 
 Definition opt_handle_field (k : string) (j : json) : list nat :=
   match field k j with
-  | Some (JNum z) => if z <? 0 then [] else [Z.to_nat z]
+  | Some (JNum z) => if z <? 0 then [] else [hnat z]
   | _ => []
   end.
 
@@ -225,7 +230,7 @@ Definition nested_handles (j : json) : list nat :=
                         | JObj fs2 => flat_map (fun kv2 => match snd kv2 with
                                                            | JNum z => if (String.eqb (fst kv2) "Level" || String.eqb (fst kv2) "Bias"
                                                                            || String.eqb (fst kv2) "X" || String.eqb (fst kv2) "Y")%bool
-                                                                       then (if z <? 0 then [] else [Z.to_nat z]) else []
+                                                                       then (if z <? 0 then [] else [hnat z]) else []
                                                            | _ => [] end) fs2
                         | _ => [] end) fs
   | _ => []
@@ -336,7 +341,7 @@ Definition dec_result (j : json) : res fn_result :=
 
 Definition dec_named (j : json) : res (nat * string) :=
   match j with
-  | JArr [JNum z; JStr s] => if z <? 0 then Err "named expression handle" else Ok (Z.to_nat z, s)
+  | JArr [JNum z; JStr s] => if z <? 0 then Err "named expression handle" else Ok (hnat z, s)
   | _ => Err "named expression entry"
   end.
 
